@@ -45,7 +45,7 @@ type Event struct {
 	// answers; the scenario goes on once it has failed
 	ID int `json:"id"`
 	// inject: how the handler behaves
-	Beh   string `json:"beh,omitempty"`   // plain | nested | nestedobs | gated | busy (nestedobs: the nested requests are Observe registrations)
+	Beh   string `json:"beh,omitempty"`   // plain | nested | nestedobs | gated | busy (nestedobs: the nested requests are Observe registrations; nestednon: non-confirmable GETs)
 	Depth int    `json:"depth,omitempty"` // nested: number of sequential nested requests the handler makes (1-3)
 	Con   bool   `json:"con,omitempty"`
 	// NoWait: the event is applied right behind the previous one, without waiting for quiescence
@@ -75,6 +75,9 @@ type Scenario struct {
 type getter interface {
 	Get(ctx context.Context, path string, opts ...message.Option) (*pool.Message, error)
 	Observe(ctx context.Context, path string, observeFunc func(req *pool.Message), opts ...message.Option) (client.Observation, error)
+	NewGetRequest(ctx context.Context, path string, opts ...message.Option) (*pool.Message, error)
+	Do(req *pool.Message) (*pool.Message, error)
+	ReleaseMessage(m *pool.Message)
 	Close() error
 	Done() <-chan struct{}
 }
@@ -97,6 +100,7 @@ func Exec(t *testing.T, sc Scenario, r *evid.Run) *evid.Failure {
 	appRes := map[int]string{}
 	appStarted := map[int]bool{}
 	var fail *evid.Failure
+	var errs endpoints.Errs
 	run := bubble.Run(t, 60*time.Second, nil, func() {
 		start := time.Now()
 		var tk endpoints.Ticker
@@ -126,7 +130,7 @@ func Exec(t *testing.T, sc Scenario, r *evid.Run) *evid.Failure {
 			hlog = append(hlog, hrec{id: id, t: time.Since(start)})
 			mu.Unlock()
 			switch parts[2] {
-			case "nested", "nestedobs":
+			case "nested", "nestedobs", "nestednon":
 				for d := 0; d < depthOf[id]; d++ {
 					ctx, cancel := context.WithTimeout(context.Background(), 20*time.Second)
 					var resp *pool.Message
@@ -153,6 +157,15 @@ func Exec(t *testing.T, sc Scenario, r *evid.Run) *evid.Failure {
 							case <-time.After(5 * time.Second):
 								err = fmt.Errorf("the registration response was not given to the callback within 5 s of Observe returning")
 							}
+						}
+					} else if parts[2] == "nestednon" {
+						// the request is non-confirmable: no acknowledgement is waited for, the call
+						// goes straight to waiting for the response
+						var rq *pool.Message
+						if rq, err = c.NewGetRequest(ctx, fmt.Sprintf("/n/%d/%d", id, d)); err == nil {
+							rq.SetType(message.NonConfirmable)
+							resp, err = c.Do(rq)
+							c.ReleaseMessage(rq)
 						}
 					} else {
 						resp, err = c.Get(ctx, fmt.Sprintf("/n/%d/%d", id, d))
@@ -202,7 +215,7 @@ func Exec(t *testing.T, sc Scenario, r *evid.Run) *evid.Failure {
 			link := memnet.NewPacketLink(memnet.LinkCfg{LatencyMs: 1})
 			c, stop, errRole := roles.Packet(sc.Role, link, bubble.Wait, []any{
 				options.WithRequestMonitor(udpMonitor), endpoints.UDPCfg(func(cfg *udpClient.Config) { cfg.RequestMonitor = udpMonitor }),
-				options.WithMessagePool(pool.New(8, 2048)), options.WithPeriodicRunner(tk.Runner()),
+				options.WithMessagePool(pool.New(8, 2048)), options.WithPeriodicRunner(tk.Runner()), options.WithErrors(errs.Add),
 				options.WithBlockwise(false, 6, time.Second), options.WithReceivedMessageQueueSize(sc.Queue),
 				options.WithLimitClientParallelRequest(limit), options.WithLimitClientEndpointParallelRequest(limit),
 				options.WithTransmission(nstart, 2*time.Second, 2),
@@ -221,7 +234,7 @@ func Exec(t *testing.T, sc Scenario, r *evid.Run) *evid.Failure {
 			rawWrite = func(b []byte) { _, _ = link.B.Write(b) }
 			c, stop, err := roles.Stream(sc.Role, link, bubble.Wait, []any{
 				options.WithRequestMonitor(tcpMonitor), endpoints.TCPCfg(func(cfg *tcpClient.Config) { cfg.RequestMonitor = tcpMonitor }),
-				options.WithMessagePool(pool.New(8, 2048)), options.WithPeriodicRunner(tk.Runner()),
+				options.WithMessagePool(pool.New(8, 2048)), options.WithPeriodicRunner(tk.Runner()), options.WithErrors(errs.Add),
 				options.WithBlockwise(false, 6, time.Second), options.WithReceivedMessageQueueSize(sc.Queue), options.WithCloseSocket(),
 				options.WithLimitClientParallelRequest(limit), options.WithLimitClientEndpointParallelRequest(limit),
 				options.WithHandlerFunc(tcpClient.HandlerFunc(func(rw *responsewriter.ResponseWriter[*tcpClient.Conn], rq *pool.Message) {
@@ -450,7 +463,7 @@ func Exec(t *testing.T, sc Scenario, r *evid.Run) *evid.Failure {
 	}
 	for _, h := range hlog {
 		if h.nestErr != "" && !closed {
-			return evid.Failf("dispatch/nested-request-failed", sc, "the handler of message %d issued a blocking request on its own connection and it failed: %s (the peer answers every nested request)", h.id, h.nestErr)
+			return evid.Failf("dispatch/nested-request-failed", sc, "the handler of message %d issued a blocking request on its own connection and it failed: %s (the peer answers every nested request); errors the connection reported: %.400q", h.id, h.nestErr, errs.List())
 		}
 		if !h.done && !closed {
 			return evid.Failf("dispatch/handler-stuck", sc, "the handler of message %d never finished although every gate was opened and every nested request answered", h.id)
@@ -555,14 +568,14 @@ func gen(t *rapid.T) Scenario {
 			e.NoWait = i > 0 && sc.Events[i-1].Kind == "inject" && rapid.IntRange(0, 2).Draw(t, "nowait") > 0
 			e.DropBefore = rapid.IntRange(0, 4).Draw(t, "dropbefore") == 0
 			if !allPlain {
-				e.Beh = rapid.SampledFrom([]string{"plain", "plain", "nested", "nested", "nestedobs", "gated"}).Draw(t, "beh")
+				e.Beh = rapid.SampledFrom([]string{"plain", "plain", "nested", "nested", "nestedobs", "nestednon", "gated"}).Draw(t, "beh")
 			}
 			if rapid.IntRange(0, 3).Draw(t, "ownmid") == 0 {
 				// next to the library's own counter, or half the ID space away from it (where the
 				// library moves its counter when it notices the former)
 				e.OwnMID = rapid.SampledFrom([]int{1, 2, 2, 3, 4, 32768, 32769, 32770}).Draw(t, "ownmidoff")
 			}
-			if e.Beh == "nested" || e.Beh == "nestedobs" {
+			if e.Beh == "nested" || e.Beh == "nestedobs" || e.Beh == "nestednon" {
 				e.Depth = rapid.IntRange(1, 3).Draw(t, "depth")
 				nested = append(nested, e.ID)
 			}
@@ -601,7 +614,7 @@ func nonTrivial(sc Scenario) bool {
 			if len(open) > 0 {
 				return true
 			}
-			if e.Beh == "nested" || e.Beh == "nestedobs" {
+			if e.Beh == "nested" || e.Beh == "nestedobs" || e.Beh == "nestednon" {
 				open[e.ID] = true
 			}
 		case "answer":
@@ -651,7 +664,7 @@ func TestCheck(t *testing.T) {
 		return f
 	})
 	r.Main(evid.Meta{
-		Rule:        udpsrv.Rule + ". " + discsim.RuleDup + ". Others: a connection (datagram and stream, receive queue 0/1/16, generous request limits or the library's defaults of one outstanding request) in a synctest bubble; the scripted peer injects numbered requests whose handlers return at once, block on 1-3 sequential requests (GETs or observe registrations) issued on the same connection, or block on a gate, or stay busy without blocking; in a twenty-fifth of the cases a crowd of 40-200 requests whose handlers all wait for their nested request at the same time; message IDs of the peer's choosing, some of them equal or close to the IDs the library itself is about to use or half the ID space away; messages arrive one by one (quiescence in between) or in bursts that pile up in the receive queue; it answers the nested requests after delivering further messages, other goroutines issue requests meanwhile (some of them never acknowledged or answered by the peer, so that they time out), the connection may be closed at a generated point; Oracle: every message injected while the connection is open reaches the handler exactly once; every nested request completes with its own response (so later messages — among them the awaited response — are processed while a handler waits); every handler finishes once gates are open and nested requests answered; application requests complete; with only non-blocking handlers and no other user of the connection the dispatch order equals the arrival order. Non-trivial = a handler waits on a nested request while a further message arrives; distinct by scenario",
+		Rule:        udpsrv.Rule + ". " + discsim.RuleDup + ". Others: a connection (datagram and stream, receive queue 0/1/16, generous request limits or the library's defaults of one outstanding request) in a synctest bubble; the scripted peer injects numbered requests whose handlers return at once, block on 1-3 sequential requests (confirmable or non-confirmable GETs or observe registrations) issued on the same connection, or block on a gate, or stay busy without blocking; in a twenty-fifth of the cases a crowd of 40-200 requests whose handlers all wait for their nested request at the same time; message IDs of the peer's choosing, some of them equal or close to the IDs the library itself is about to use or half the ID space away; messages arrive one by one (quiescence in between) or in bursts that pile up in the receive queue; it answers the nested requests after delivering further messages, other goroutines issue requests meanwhile (some of them never acknowledged or answered by the peer, so that they time out), the connection may be closed at a generated point; Oracle: every message injected while the connection is open reaches the handler exactly once; every nested request completes with its own response (so later messages — among them the awaited response — are processed while a handler waits); every handler finishes once gates are open and nested requests answered; application requests complete; with only non-blocking handlers and no other user of the connection the dispatch order equals the arrival order. Non-trivial = a handler waits on a nested request while a further message arrives; distinct by scenario",
 		Assumptions: []string{"a handler that blocks on something other than its own connection (the gate) legitimately stalls later messages until it returns", "after close nothing is required of undelivered messages"},
 		Floor:       300,
 	}, eng, udpsrv.Engine(r, []string{"closed", "monclose", "monclose", "twolocal"}, 10, 250), discsim.Engine(r, "dup", 4, 100))
